@@ -69,6 +69,21 @@ def build(engine, log, clock):
               "after": {"23": "f"}},
         "f": {"type": "final"}}}
     kid2 = create_machine(kid2_cfg, logic=MachineLogic(services={"grand": kid}))
+    kid3 = None
+    if engine == "async":
+        # a child whose start-up suspends in an awaiting entry action AFTER its root has already
+        # armed a heartbeat service: a stop() of the parent that lands in that window must reach it
+        async def hb3(i, c, e):
+            while True:
+                await asyncio.sleep(0.004)
+                log.append((clock(), "act", "kid3-heartbeat", getattr(i, "id", None)))
+
+        async def boot3(i, c, e, a):
+            await asyncio.sleep(0.012)
+        kid3 = create_machine(
+            {"id": "kid3", "initial": "boot", "invoke": {"id": "hb", "src": "hb3", "onError": {}},
+             "states": {"boot": {"entry": ["boot3"]}}},
+            logic=MachineLogic(actions={"boot3": boot3}, services={"hb3": hb3}))
     if engine == "async":
         async def svc(i, c, e):
             log.append((clock(), "svc-start"))
@@ -114,6 +129,10 @@ def build(engine, log, clock):
         n["k"] += 1
         return {"src": "kid", "id": "k%d" % n["k"]}
 
+    def spawn3_params(a):
+        n["k"] += 1
+        return {"src": "kid3", "id": "h%d" % n["k"]}
+
     def spawn2_params(a):
         n["k"] += 1
         return {"src": "kid2", "id": "j%d" % n["k"]}
@@ -125,7 +144,14 @@ def build(engine, log, clock):
                                "SPAWN2": {"actions": [{"type": "xstate.spawnChild", "params": spawn2_params}]},
                                "DELAY": {"actions": [{"type": "xstate.raise", "params": {
                                    "event": "TICK", "delay": 20 if engine == "async" else 4000}}]},
-                               "STOPME": {"actions": ["stop_self", "after_stop_marker"]}}},
+                               "STOPME": {"actions": ["stop_self", "after_stop_marker"]},
+                               # stop() from an action of a transition that THEN enters a state which
+                               # spawns a ticking child and arms a timer
+                               "STOPGO": {"target": "nursery", "actions": ["stop_self"]},
+                               "SPAWN3": {"actions": [{"type": "xstate.spawnChild", "params": spawn3_params}]}
+                               if kid3 is not None else {"actions": []}}},
+               "nursery": {"entry": [{"type": "xstate.spawnChild", "params": spawn_params}],
+                           "after": {"15": {"actions": ["timeout"]}}, "on": {"BACK": "idle"}},
                "busy": {"after": {"15": {"target": "idle", "actions": ["timeout"]}},
                         "invoke": {"src": "svc", "id": "i1", "onDone": {"target": "idle", "actions": ["svcdone"]}},
                         "on": {"BACK": "idle", "SLOW": {"actions": ["slow"]}}},
@@ -134,7 +160,8 @@ def build(engine, log, clock):
     acts = {k: mk(k) for k in ("tick", "timeout", "svcdone", "after_stop_marker", "longtick")}
     acts["slow"] = slow
     acts["stop_self"] = stop_self
-    return create_machine(cfg, logic=MachineLogic(actions=acts, services={"svc": svc, "bad": bad, "kid": kid, "kid2": kid2}))
+    return create_machine(cfg, logic=MachineLogic(actions=acts, services=dict({"svc": svc, "bad": bad, "kid": kid, "kid2": kid2},
+                                                                 **({"kid3": kid3} if kid3 is not None else {}))))
 
 
 def gen_script(rng):
@@ -145,7 +172,8 @@ def gen_script(rng):
         r = rng.random()
         if r < 0.5:
             ops.append("send:" + rng.choice(["WORK", "BACK", "SPAWN", "DELAY", "SLOW", "TICK", "WORK",
-                                             "SPAWN", "SPAWN2", "SPAWN2", "FIN", "FAIL", "STOPME"]))
+                                             "SPAWN", "SPAWN2", "SPAWN2", "FIN", "FAIL", "STOPME", "STOPGO",
+                                             "SPAWN3", "SPAWN3"]))
         elif r < 0.62:
             ops.append("wait:%d" % rng.choice([1, 5, 12, 16, 26, 40]))
         elif r < 0.74:
